@@ -588,9 +588,9 @@ func runC12(c *Ctx) {
 		good := true
 		n := 0
 		why := ""
-		eachInstr(f, func(in ssa.Instruction) {
+		eachInstrDeep(f, func(gf *ssa.Function, in ssa.Instruction) {
 			ci, ok := in.(*ssa.Call)
-			if !ok || !strings.HasSuffix(callName(ci), "labelNode).getValue") {
+			if !ok || !strings.HasSuffix(stripTypeArgs(callName(ci)), "labelNode).getValue") {
 				return
 			}
 			node := ci.Call.Args[0]
@@ -598,11 +598,15 @@ func runC12(c *Ctx) {
 			if k, _ := loadedField(node); k == D+"SubDomainMatcher.root" {
 				return
 			}
+			// the walk as a method of the node type, started on the root: its receiver is the root
+			if prm, isP := node.(*ssa.Parameter); isP && gf != f && len(gf.Params) > 0 && prm == gf.Params[0] {
+				return
+			}
 			n++
 			g := false
 			for _, gd := range guardsOfInstr(in) {
 				v, truth := gd.asBool()
-				if cl, ok := v.(*ssa.Call); ok && truth && strings.HasSuffix(callName(cl), "labelNode).hasValue") && cl.Call.Args[0] == node {
+				if cl, ok := v.(*ssa.Call); ok && truth && strings.HasSuffix(stripTypeArgs(callName(cl)), "labelNode).hasValue") && cl.Call.Args[0] == node {
 					g = true
 				}
 			}
@@ -744,18 +748,19 @@ func runC12(c *Ctx) {
 
 	c.rule("R10", "the trie walk stops at the first label that has no child (labels must be consecutive from the right); every rule handed to MixMatcher.Add reaches a sub-matcher's Add, as written", 3)
 	if mf := c.fn(relDomain, "SubDomainMatcher", "Match"); mf != nil {
-		var scan ssa.Instruction
-		eachInstr(mf, func(in ssa.Instruction) {
+		scans := map[*ssa.Function]ssa.Instruction{}
+		eachInstrDeep(mf, func(g *ssa.Function, in ssa.Instruction) {
 			if ci, ok := in.(*ssa.Call); ok && strings.HasSuffix(callName(ci), "ReverseDomainScanner).Scan") {
-				scan = in
+				scans[g] = in
 			}
 		})
 		n := 0
-		eachInstr(mf, func(in ssa.Instruction) {
+		eachInstrDeep(mf, func(g *ssa.Function, in ssa.Instruction) {
 			ci, ok := in.(*ssa.Call)
-			if !ok || !strings.HasSuffix(callName(ci), ".getChild") {
+			if !ok || !strings.HasSuffix(stripTypeArgs(callName(ci)), ".getChild") {
 				return
 			}
+			scan := scans[g]
 			for _, r := range referrers(ci) {
 				bo, ok := r.(*ssa.BinOp)
 				if !ok || !isNilConst(bo.Y) {
